@@ -82,12 +82,16 @@ def hand_packages(rng):
     top = H.hand_struct("Omega", [H.hand_embed(mid), H.hand_field("id")])
     out.append(H.build_new_pkg([e, mid, top], ["-getset", "-json"], extra_feats=["hand-chain3"]))
     # map with chains of nested embedded pointer structs on both sides (nilCheckWrite: several pointer paths)
-    dest = ("package dest\n\ntype D struct {\n\t*E1\n\t*E2\n\tTop int\n}\n\ntype E1 struct {\n\tA int\n\t*EE\n}\n\ntype EE struct {\n\tX int\n\t*EEE\n}\n\n"
-            "type EEE struct {\n\tY int\n}\n\ntype E2 struct {\n\tB int\n\t*F2\n}\n\ntype F2 struct {\n\tC int\n}\n\ntype P struct {\n\tA int\n\tX int\n\tY int\n\tB int\n\tC int\n}\n")
-    src = ("package src\n\ntype D struct {\n\tA   int\n\tX   int\n\tY   int\n\tB   int\n\tC   int\n\tTop int\n}\n\ntype P struct {\n\t*G1\n\t*G2\n}\n\n"
+    # E1/EE: own field first; H1/HH: the embedded pointer first (the deepest field is met first and pulls ALL its pointer paths
+    # out of the map in one range)
+    dest = ("package dest\n\ntype D struct {\n\t*E1\n\t*E2\n\t*H1\n\tTop int\n}\n\ntype E1 struct {\n\tA int\n\t*EE\n}\n\ntype EE struct {\n\tX int\n\t*EEE\n}\n\n"
+            "type EEE struct {\n\tY int\n}\n\ntype E2 struct {\n\tB int\n\t*F2\n}\n\ntype F2 struct {\n\tC int\n}\n\n"
+            "type H1 struct {\n\t*HH\n\tK int\n}\n\ntype HH struct {\n\t*HHH\n\tL int\n}\n\ntype HHH struct {\n\t*HHHH\n\tM int\n}\n\ntype HHHH struct {\n\tN int\n}\n\n"
+            "type P struct {\n\tA int\n\tX int\n\tY int\n\tB int\n\tC int\n}\n")
+    src = ("package src\n\ntype D struct {\n\tA   int\n\tX   int\n\tY   int\n\tB   int\n\tC   int\n\tK   int\n\tL   int\n\tM   int\n\tN   int\n\tTop int\n}\n\ntype P struct {\n\t*G1\n\t*G2\n}\n\n"
            "type G1 struct {\n\tA int\n\t*GG\n}\n\ntype GG struct {\n\tX int\n\t*GGG\n}\n\ntype GGG struct {\n\tY int\n}\n\ntype G2 struct {\n\tB int\n\tC int\n}\n")
     out.append({"cmd": "map", "flags": ["-path=../dest"], "files": {"src/s.go": src, "dest/d.go": dest}, "cwd": "src", "gofile": "s.go",
-                "types": ["D", "P"], "all_types": ["D", "P"], "setup": [], "feats": {"map": 1, "hand-ptr-chains": 1}, "star": False, "nexec": 2})
+                "types": ["D", "P"], "all_types": ["D", "P"], "setup": [], "feats": {"map": 1, "hand-ptr-chains": 1}, "star": False, "nexec": 12})
     return out
 
 
@@ -111,7 +115,7 @@ def special_cases(rng):
 def make_packages(ctx):
     rng = ctx.rng
     pks = hand_packages(rng)
-    n_new, n_map, n_enum, n_rest = ctx.n((5, 2, 1, 1), (50, 16, 8, 8))
+    n_new, n_map, n_enum, n_rest = ctx.n((5, 2, 1, 1), (24, 8, 4, 4))
     for _ in range(n_new):
         pk = detgen.gen_new_pkg(rng, {"n": rng.choice([2, 3, 3, 4]), "opt": False, "generic": 0.05})
         if rng.random() < 0.6:
@@ -313,7 +317,7 @@ def run(ctx, obl):
         res.hist("edits", ename)
         for mode in ["sep", "aio"] + (["star"] if pk.get("star") else []):
             jobs.append({"id": "p%d%s" % (i, {"sep": "s", "aio": "a", "star": "t"}[mode]), "pk": pk, "edited": pke, "mode": mode,
-                         "nexec": max(nexec, pk.get("nexec", 0) * nexec // 2 if pk.get("nexec") else 0)})
+                         "nexec": max(nexec, pk.get("nexec", 0))})
     results = core.pmap(lambda j: history(ctx, roots, j), jobs)
     specials = special_cases(rng)
     sres = core.pmap(lambda t: run_special(ctx, roots[0], t[1], t[0], max(nexec, 8)), list(enumerate(specials)))
